@@ -16,3 +16,4 @@ def run(ck):
     image.r_no_dangling_after_free(ck, P, 'C20-R7')
     alloc.r3_local_ownership(ck, P)       # C15-R3: what a function allocates for itself is released on every path (a leak is a lifetime violation too)
     glyph.r2_counters_pair(ck, P)         # C17-R2: the table-clearing sweep visits every slot (a glyph left in an unvisited slot is never released)
+    image.r_embedded_region_finalised(ck, P)
